@@ -253,7 +253,9 @@ CHECKS = {
         "holding the sender under a stale short address / another device on the sender's address) and pushed through "
         "EZSP.frame_received into a real ControllerApplication with recorders in place of zigpy's entry points. Exactly one "
         "packet for unicast/multicast/broadcast with source, endpoints, profile, cluster, APS sequence, payload, LQI, RSSI "
-        "equal to the encoded ones and destination own-NWK/group/broadcast; none for other types; join/leave/nothing as stated.",
+        "equal to the encoded ones and destination own-NWK/group/broadcast; none for other types; join/leave/nothing as stated; "
+        "the same for sequences of 2-5 callbacks into one application (own address changing in between, back-to-back arrival, "
+        "manufacturer-code command answered at once / slowly / never).",
         "Application built with the zigpy.util.Requests shim; zigpy's packet_received/handle_join/handle_leave are replaced by recorders.",
         "Hypothesis content generation with an independent byte-level encoder; decoded-packet equality (differential against hand-written layouts)",
         "DESIGN.md 4/C13",
